@@ -21,6 +21,7 @@ func checkC16(c *Ctx) {
 		"weightedrand.Chooser.PickSource is a deterministic function of its weights and source")
 	c.Expect("C16.1", 5)
 
+	c16StateGates(c)
 	lr := p.Iface("protocol/leaderrotation", "LeaderRotation")
 	impls := p.Implementations(lr, false)
 	if len(impls) < 5 {
@@ -421,4 +422,191 @@ func c16Reputation(c *Ctx) {
 	}
 	c.Check(okSort, "C16.4", "RepBased.GetLeader: weights sorted by id before the chooser is built", p.FuncPos(gl), "slices.SortFunc(weights, by id) precedes weightedrand.NewChooser on every path", "weights are not sorted before the draw (iteration order of the voter set would leak into the choice)")
 	c.Check(okSeed, "C16.4", "RepBased.GetLeader: draw seeded by shared seed + view", p.FuncPos(gl), "PickSource(rand.New(rand.NewSource(SharedRandomSeed()+view)))", "unexpected seed")
+}
+
+// c16StateGates (C16.6): the two history-dependent schemes agree across replicas only because they consult the committed
+// history at a point that every replica has reached: the carousel draws only when the committed head is exactly
+// chainLength views behind the requested view (otherwise round-robin), and the reputation scheme updates a voter's
+// reputation once per new committed head and refuses only views that lie before the committed head's horizon.
+func c16StateGates(c *Ctx) {
+	p := c.P
+	if gl := p.Method("protocol/leaderrotation", "Carousel", "GetLeader"); gl != nil {
+		fl := NewFlow(p, gl)
+		atHorizon := func(f Fact) bool {
+			if f.Op != "==" {
+				return false
+			}
+			isHead := func(k string) bool {
+				return strings.HasPrefix(k, "(*hs.Block).View((*hs/protocol.ViewStates).CommittedBlock(")
+			}
+			isBack := func(k string) bool {
+				return strings.HasPrefix(k, "(p1 - ") && strings.Contains(k, "Carousel.chainLength")
+			}
+			return isHead(f.L) && isBack(f.R) || isHead(f.R) && isBack(f.L)
+		}
+		n := 0
+		var bad []string
+		for _, ds := range deepSites(fl, func(cc *ssa.CallCommon) bool {
+			return cc.StaticCallee() != nil && cc.StaticCallee().String() == "math/rand.NewSource"
+		}, 0) {
+			n++
+			ok := false
+			for f := range ds.Facts {
+				if atHorizon(f) {
+					ok = true
+				}
+			}
+			pos := ssa.Instruction(ds.Site)
+			if ds.Via != nil {
+				pos = ds.Via
+			}
+			if !ok && !branchDominates(fl, pos, atHorizon) {
+				bad = append(bad, p.Pos(ds.Site.Pos()))
+			}
+		}
+		c.Check(n > 0 && len(bad) == 0, "C16.6", "Carousel.GetLeader: draws only at the committed head's horizon", p.FuncPos(gl),
+			"the seeded draw is reached only under CommittedBlock().View() == round - chainLength; every other case falls back to round-robin",
+			"the draw at "+join(bad)+" is reachable when the committed head is not exactly chainLength views behind: replicas whose committed heads differ pick different leaders")
+	} else {
+		c.Unresolved("C16.6", "Carousel.GetLeader", "anchor missing")
+	}
+	if gl := p.Method("protocol/leaderrotation", "RepBased", "GetLeader"); gl != nil {
+		n := 0
+		var bad []string
+		newHead := func(f Fact) bool {
+			return f.Op == "<" && strings.Contains(f.L, "RepBased.prevCommitHead") && strings.HasPrefix(f.L, "(*hs.Block).View(") && strings.HasPrefix(f.R, "(*hs.Block).View(")
+		}
+		// the updates of the reputation table made on GetLeader's behalf: in it, in its function literals, or in private
+		// helpers of the package that are handed the table
+		var scope []*ssa.Function
+		for _, hf := range helperClosure(p, gl, 2) {
+			scope = append(scope, hf)
+			scope = append(scope, Closures(hf)...)
+		}
+		for _, cl := range Closures(gl) {
+			for _, hf := range helperClosure(p, cl, 2) {
+				scope = append(scope, hf)
+			}
+		}
+		seenFn := map[*ssa.Function]bool{}
+		isGateCmp := func(v ssa.Value) bool {
+			bo, ok := v.(*ssa.BinOp)
+			if !ok || (bo.Op != token.LSS && bo.Op != token.GTR) || bo.Parent() == nil {
+				return false
+			}
+			k := NewKeyer(p, bo.Parent())
+			kx, ky := k.Key(bo.X), k.Key(bo.Y)
+			return strings.HasPrefix(kx, "(*hs.Block).View(") && strings.HasPrefix(ky, "(*hs.Block).View(") && (strings.Contains(kx, "prevCommitHead") != strings.Contains(ky, "prevCommitHead"))
+		}
+		// gated: in is reached only through a branch whose condition is (or is computed from) the new-head comparison;
+		// if its function has no such branch, every call of that function is
+		var gated func(in ssa.Instruction, depth int) bool
+		gated = func(in ssa.Instruction, depth int) bool {
+			fn := in.Parent()
+			ffl := NewFlow(p, fn)
+			if branchDominates(ffl, in, newHead) {
+				return true
+			}
+			for f := range ffl.At(in) {
+				if newHead(f) {
+					return true
+				}
+			}
+			for _, b := range fn.Blocks {
+				iff, ok := b.Instrs[len(b.Instrs)-1].(*ssa.If)
+				if !ok || len(b.Succs) != 2 {
+					continue
+				}
+				for _, su := range b.Succs {
+					if len(su.Preds) == 1 && su.Dominates(in.Block()) {
+						sliceEnterHelpers, sliceProg = funcPkgPath(gl), p
+						hit := backwardSlice(iff.Cond, isGateCmp)
+						sliceEnterHelpers, sliceProg = "", nil
+						if hit {
+							return true
+						}
+					}
+				}
+			}
+			if depth >= 3 || fn == gl {
+				return false
+			}
+			// the function literal handed to ForEach, or a private helper: judged at its uses
+			if outer := fn.Parent(); outer != nil {
+				ok := false
+				eachInstr(outer, func(x ssa.Instruction) {
+					if mc, isMC := x.(*ssa.MakeClosure); isMC && mc.Fn == ssa.Value(fn) {
+						ok = gated(x, depth+1)
+					}
+				})
+				return ok
+			}
+			callers := callIndexOf(p).callers[fn]
+			if len(callers) == 0 || callIndexOf(p).asValue[fn] {
+				return false
+			}
+			for _, r := range callers {
+				if !gated(r.Instr, depth+1) {
+					return false
+				}
+			}
+			return true
+		}
+		for _, fn := range scope {
+			if seenFn[fn] || fn.Blocks == nil {
+				continue
+			}
+			seenFn[fn] = true
+			eachInstr(fn, func(in ssa.Instruction) {
+				mu, ok := in.(*ssa.MapUpdate)
+				if !ok {
+					return
+				}
+				sliceEnterHelpers, sliceProg = funcPkgPath(gl), p
+				isTable := backwardSlice(mu.Map, func(v ssa.Value) bool {
+					fa, ok := v.(*ssa.FieldAddr)
+					return ok && strings.HasSuffix(fieldName(fa.X.Type(), fa.Field), "RepBased.reputations")
+				})
+				sliceEnterHelpers, sliceProg = "", nil
+				if !isTable {
+					return
+				}
+				n++
+				if !gated(in, 0) {
+					bad = append(bad, p.InstrPos(in))
+				}
+			})
+		}
+		c.Check(n > 0 && len(bad) == 0, "C16.6", "RepBased.GetLeader: reputations change once per new committed head", p.FuncPos(gl),
+			"a voter's reputation is updated only under prevCommitHead.View() < block.View()",
+			"the update at "+join(bad)+" is not gated by a new committed head: the reputations depend on how often GetLeader was asked, which differs between replicas")
+		// the refusal (id 0) is for views before the horizon only
+		fl := NewFlow(p, gl)
+		var badRet []string
+		nRet := 0
+		for _, r := range returnsOf(gl) {
+			if !fl.Reachable(r.Block()) || !isIntConst(retValue(r, 0), 0) {
+				continue
+			}
+			nRet++
+			old := func(f Fact) bool {
+				return f.Op == "<" && strings.HasPrefix(f.L, "(p1 - ") && strings.Contains(f.L, "RepBased.chainLength") && strings.HasPrefix(f.R, "(*hs.Block).View((*hs/protocol.ViewStates).CommittedBlock(")
+			}
+			ok := branchDominates(fl, r, old)
+			for f := range fl.At(r) {
+				if old(f) {
+					ok = true
+				}
+			}
+			// (the weighted draw's own failure is the other way to return no leader)
+			if !ok && !notNilOf(fl.At(r), func(k string) bool { return strings.Contains(k, "weightedrand") }) {
+				badRet = append(badRet, p.Pos(r.Pos()))
+			}
+		}
+		c.Check(len(badRet) == 0, "C16.6", "RepBased.GetLeader: no leader only for views before the committed horizon", p.FuncPos(gl),
+			"id 0 is returned only under view - chainLength < CommittedBlock().View() (or when the weighted chooser cannot be built)",
+			"id 0 (no replica) is returned at "+join(badRet)+" for a view at or after the committed horizon")
+	} else {
+		c.Unresolved("C16.6", "RepBased.GetLeader", "anchor missing")
+	}
 }
